@@ -34,7 +34,8 @@ RULE = ("channel objects {TdlChannel SISO, TdlMimoChannel, SuChannel (with / "
         "exactly 0. "
         "In the multiuser slots some (or all) transmitters are silent (all-zero rows); every link's reported response must be the one of THIS transmission (sample count checked before use). "
         "Slices with negative bounds; transmissions whose response nobody queries between the observed ones. "
-        "3 % of the time-domain inputs are whole frames of 4000-40000 samples. ")
+        "3 % of the time-domain inputs are whole frames of 4000-40000 samples. "
+        "The dense view and the frequency response of every reported response are compared with its sparse taps. ")
 ASSUMPTIONS = ["for channel memory >= fft size the DFT of the reported response is "
                "the defining sum over ALL taps, sum_d h[d] exp(-2 pi i k d / fft) "
                "(taps fold onto the fft grid; the same reading C02's exact "
@@ -283,6 +284,23 @@ def transmit_and_check(ctx, ch, get_resp, kind, mimo, rng, tag, pos, pathloss=No
                detail=d(got=h.shape, blocks=nblocks))
         if h.shape[-1] != nblocks:
             return
+        # the other views of the reported response agree with its sparse taps:
+        # the dense taps, and the frequency response on the fft grid
+        ctx.within("reported-response-shape", fro(np.asarray(resp.tap_values) - h), 1e-300 +
+                   4 * EPS * fro(h), "dense-view:freq", d())
+        if h.shape[0] <= fft:
+            okf, FR = ctx.call("freq-domain-per-block", resp.get_freq_response, fft,
+                               cls="get_freq_response-raised", detail=d(fft=fft))
+            if okf:
+                kk = np.arange(fft)
+                E = np.exp(-2j * np.pi * np.outer(kk, np.arange(h.shape[0])) / fft)
+                wantF = np.tensordot(E, h, axes=(1, 0))
+                FR = np.asarray(FR)
+                hs = float(np.max(np.sum(np.abs(h), axis=0))) if h.size else 0.0
+                ctx.ev("freq-domain-per-block", FR.shape == wantF.shape and
+                       fro(FR - wantF) <= 256 * EPS * fft * (hs * math.sqrt(wantF.size) + 1e-300),
+                       cls="reported-freq-response-is-the-DFT-of-the-reported-taps",
+                       detail=d(fft=fft, got=FR.shape, want=wantF.shape))
         want, _ = freq_oracle(h, x, fft, sel, switched)
         y = np.asarray(y)
         ctx.ev("output-length", y.shape == want.shape, cls=kind + ":freq",
